@@ -8,5 +8,8 @@ import (
 
 // Native counterpart of the engine stub (*client).lookupRegion => vLookupRegion.
 func (c *client) lookupRegion(ctx context.Context, table, key []byte) (hrpc.RegionInfo, string, error) {
+	if vRealLookup {
+		return c.lookupRegionOrig(ctx, table, key) // a job that runs the real lookup loop
+	}
 	return vLookupRegion(c, ctx, table, key)
 }
